@@ -558,6 +558,43 @@ def Rl_self_field(v):
     return Rl.self_field_name(v)
 
 
+def r6(F, R):
+    """Counts of several chains / phases are combined component by component."""
+    R.rule("C15-R6", "no storage backend orders *tuples* of counts (`(warmup, sampling).max(..)`, min, cmp, sort of pairs): the order of tuples is lexicographic, so the "
+                     "second component of the result is the one of the chain with the most warm-up events, not the largest; event arrays resized to it cut off "
+                     "recorded entries of the other chains")
+    P = K.positive_facts()
+
+    def scan(FF, pred):
+        out = []
+        for b in sorted(FF.bodies.values(), key=lambda x: x.path):
+            if not pred(b):
+                continue
+            for bb, t in b.calls():
+                c = t["callee"]
+                if c.get("name") in ("max", "min", "cmp", "partial_cmp", "clamp") and (c.get("trait") or "").endswith(("cmp::Ord", "cmp::PartialOrd")):
+                    st = str(c.get("self_ty") or "")
+                    if st.startswith("(") and "," in st:
+                        out.append((b, t, st))
+        return out
+    n_calls = 0
+    in_storage = lambda b: b.path.startswith(("storage::", "<storage::"))    # noqa: E731
+    for b in F.bodies.values():
+        if in_storage(b):
+            n_calls += sum(1 for _ in b.calls())
+    for (b, t, st) in scan(F, in_storage):
+        R.bad("C15-R6", "%s:tuple-%s" % (b.path, t["callee"]["name"]), "%s @%s" % (b.path, loc(t["span"])), "%s of values of type %s is lexicographic, not component-wise" % (
+            t["callee"]["name"], st))
+    R.ok("C15-R6", "scan", "storage::*", "%d call sites of the storage backends scanned" % n_calls)
+    got = {b.path.split("::")[-1] for (b, _t, _s) in scan(P, lambda b: True)}
+    if "c15_pair_max" in got:
+        R.ok("C15-R6", "positive-control", "fixtures/positive", "matcher reports the planted (u64, u64)::max")
+    else:
+        R.bad("C15-R6", "positive-control", "fixtures/positive", "matcher failed to report the planted tuple maximum")
+    R.floor("C15-R6", 2)
+
+
+
 def run(F, R, config=None):
     feats = C10.features(F)
     if "zarr" not in feats:
@@ -570,10 +607,11 @@ def run(F, R, config=None):
         r3(F, R)
     r4(F, R)
     r5(F, R)
+    r6(F, R)
     R.assume("zarrs writes exactly the subset / chunk it is given; tokio's JoinSet::join_next returns None only when the set is empty")
     R.assume("chunk arithmetic for all sizes and store contents after a crash are value questions, not decided")
 
 
-FEATURE_RULES = {"C15-R1": "zarr", "C15-R2": "zarr", "C15-R3": "zarr", "C15-R4": "zarr", "C15-R5": "zarr"}
+FEATURE_RULES = {"C15-R1": "zarr", "C15-R2": "zarr", "C15-R3": "zarr", "C15-R4": "zarr", "C15-R5": "zarr", "C15-R6": "zarr"}
 CONFIGS = ["all", "zarr"]
 SELFTEST = True
